@@ -55,8 +55,21 @@ func main() {
 	})
 	idx, _ := os.Create(filepath.Join(out, "INDEX.txt"))
 	defer idx.Close()
+	if os.Getenv("MUTGEN_GUARDS") != "" {
+		// only the guard mutants, numbered separately
+		var gs []mut
+		for _, m := range muts {
+			if strings.HasPrefix(m.desc, "delete if-block") || strings.HasPrefix(m.desc, "if condition ->") {
+				gs = append(gs, m)
+			}
+		}
+		muts = gs
+	}
 	for i, m := range muts {
 		name := fmt.Sprintf("m%04d", i)
+		if os.Getenv("MUTGEN_GUARDS") != "" {
+			name = fmt.Sprintf("g%04d", i)
+		}
 		src, _ := os.ReadFile(filepath.Join(repo, m.file))
 		mutated := string(src[:m.start]) + m.repl + string(src[m.end:])
 		tmp := filepath.Join(out, name+".go.tmp")
@@ -154,6 +167,14 @@ func fileMutants(repo, rel string) []mut {
 			}
 		case *ast.IfStmt:
 			add(x.Cond.Pos(), x.Cond.End(), "!("+string(src[off(x.Cond.Pos()):off(x.Cond.End())])+")", "negate if condition")
+			if x.Else == nil && x.Init == nil && os.Getenv("MUTGEN_GUARDS") != "" {
+				// a guard removed: the whole `if cond { ... }` (no else, no init statement)
+				add(x.Pos(), x.End(), "_ = 0", "delete if-block (guard removed)")
+			}
+			if x.Else != nil && os.Getenv("MUTGEN_GUARDS") != "" {
+				add(x.Cond.Pos(), x.Cond.End(), "true", "if condition -> true")
+				add(x.Cond.Pos(), x.Cond.End(), "false", "if condition -> false")
+			}
 		case *ast.BranchStmt:
 			if x.Tok == token.BREAK && x.Label == nil {
 				add(x.Pos(), x.End(), "continue", "break -> continue")
